@@ -457,6 +457,7 @@ def run(chk):
     _emits_rule(chk, prog, tu)
     _accumfast_rule(chk, fn)
     _grammarcache_rule(chk, prog, tu)
+    _endpos_rule(chk, prog, tu)
     cfn = prog.need_func("peg_compile1", tu)
     chk.analysed(cfn)
     _restore_rule(chk, cfn, "C12-SCOPE", "grammar",
@@ -543,3 +544,32 @@ def _grammarcache_rule(chk, prog, tu):
                           "a %s source form opens its own grammar scope but is entered into the rule cache (`%s`): used a second time in "
                           "another scope, the rule compiled for the first scope is reused and its names resolve in the wrong grammar" % (
                               t, puts[0].text()[:50]))
+
+
+def _endpos_rule(chk, prog, tu):
+    """peg/match may start at any offset from 0 up to and including the length of the text (a pattern such as -1 or an
+    empty one matches there).  The scanning entry points are defined as repeated matching at successive offsets, so their
+    loops have to include that last offset too."""
+    rule = "C12-ENDPOS"
+    chk.rule(rule, "the scanning entry points (find, find-all, replace, replace-all) try every offset peg/match accepts, including offset = length")
+    n = 0
+    for fn in tu.funcs.values():
+        if fn.name == "peg_rule":
+            continue
+        for lp in fn.nodes:
+            if lp.k != "for" or lp.kids[1] is None or not any(c.k == "call" and c.callee == "peg_rule" for c in lp.walk()):
+                continue
+            cond = strip_casts(lp.kids[1])
+            if cond.k != "bin" or cond.op not in ("<", "<=") or not any(y.k == "mem" and y.field == "len" for y in cond.kids[1].walk()):
+                continue
+            n += 1
+            chk.instance(rule)
+            chk.analysed(fn)
+            if cond.op == "<=":
+                chk.ok(rule, "%s: scans offsets up to and including the text length" % fn.name)
+            else:
+                chk.violation(rule, "peg.c", fn.name, "scan-bound", lp.kids[1].loc,
+                              "%s scans `%s`: the offset equal to the text length is never tried, although (peg/match patt text (length text)) "
+                              "matches there for patterns such as -1 or \"\" - so (peg/find -1 \"abc\") is nil while matching at 3 succeeds" % (
+                                  fn.name, cond.text()[:40]))
+    chk.floor(rule, 3, n)
